@@ -3,6 +3,7 @@
 // every integration is a letter of the alphabet. Histories are explored exhaustively to a depth bound (M1/M2): every
 // history runs in a child forked from a parent that never called the integrators, every observed call in a grandchild.
 #include "mc/mc.hpp"
+#include <cfenv>
 #include "libphysica/Integration.hpp"
 #include <random>
 #include <sys/mman.h>
@@ -60,6 +61,7 @@ static Obs run_call(const Call& c, unsigned seed)
 			case 1: return x[0] > 0.1 ? 1.0 : 0.25;
 			case 2: return 3.5;
 			case 3: s = 0; for(int j = 0; j < dim; j++) s += (x[j] - 0.123) * (x[j] - 0.123); return std::exp(-s / (2 * 1e-3 * 1e-3));
+			case 5: return 1e-310 * (1.0 + 0.25 * x[0]);	// every value and every partial sum is a subnormal number
 			default: s = 0; for(size_t i = 0; i < n; i++) s += x[i]; return std::exp(-0.1 * s * s);	// reads the WHOLE vector it is given
 		}
 	};
@@ -81,11 +83,20 @@ static const std::vector<Call>& observed_alphabet()
 {
 	static std::vector<Call> C = {
 		{"Monte-Carlo", 1, 1000, 0}, {"Monte-Carlo", 3, 1000, 4}, {"Vegas", 1, 1000, 4}, {"Vegas", 2, 5000, 0}, {"Vegas", 3, 1000, 4}, {"Vegas", 2, 20000, 1},
-		{"Miser", 1, 1000, 4}, {"Miser", 2, 1000, 3}, {"Miser", 3, 5000, 3}, {"Miser", 3, 1000, 0}, {"Miser", 2, 5000, 4}, {"Monte-Carlo", 2, 5000, 3}};
+		{"Miser", 1, 1000, 4}, {"Miser", 2, 1000, 3}, {"Miser", 3, 5000, 3}, {"Miser", 3, 1000, 0}, {"Miser", 2, 5000, 4}, {"Monte-Carlo", 2, 5000, 3},
+		{"Monte-Carlo", 2, 1000, 5}, {"Miser", 2, 1000, 5}, {"Vegas", 2, 1000, 5}};
 	return C;
 }
 
-struct Digest { uint64_t value_bits, stream; long long evals, outside, wrong_size; unsigned entropy; int died; };
+struct Digest { uint64_t value_bits, stream; long long evals, outside, wrong_size; unsigned entropy; int died; unsigned env; };
+// control part of the floating-point environment (rounding mode, flush-to-zero / denormals-are-zero, exception masks; x87 control word)
+static unsigned fp_environment()
+{
+	unsigned csr = __builtin_ia32_stmxcsr() & ~0x3Fu;
+	unsigned short cw = 0;
+	__asm__ __volatile__("fnstcw %0" : "=m"(cw));
+	return (csr << 16) ^ cw ^ ((unsigned)fegetround() << 28);
+}
 
 // run `body` in a forked process that returns a vector of digests through shared memory
 static bool in_child(const std::function<void(Digest*)>& body, Digest* shared, double timeout_s)
@@ -138,8 +149,9 @@ static void histories(unsigned long long& unit)
 					pid_t g = fork();
 					if(g == 0)
 					{
+						unsigned env = fp_environment();	// what the history left behind
 						Obs o = run_call(C[ci], seeds[si]);
-						sh[k] = Digest{mc::bits(o.value), o.stream, o.evals, o.outside, o.wrong_size, o.entropy, 0};
+						sh[k] = Digest{mc::bits(o.value), o.stream, o.evals, o.outside, o.wrong_size, o.entropy, 0, env};
 						_exit(0);
 					}
 					int st;
@@ -178,6 +190,7 @@ static void histories(unsigned long long& unit)
 				if(fresh[k].died) continue;
 				if(got[k].value_bits != fresh[k].value_bits) { differing++; fail("history", key, "value_depends_on_history", "returned value differs from the same call (same seed) in a fresh process"); }
 				if(got[k].stream != fresh[k].stream || got[k].evals != fresh[k].evals) fail("history", key, "sample_points_depend_on_history", "the sequence of argument vectors handed to the integrand differs from the fresh process (" + std::to_string(got[k].evals) + " vs " + std::to_string(fresh[k].evals) + " evaluations)");
+				if(got[k].env != fresh[k].env) fail("history", key, "floating_point_environment_changed_by_history", "rounding mode / flush-to-zero / exception masks differ from those of a fresh process after this history");
 				if(got[k].entropy != fresh[k].entropy) fail("history", key, "entropy_requests_depend_on_history", std::to_string(got[k].entropy) + " vs " + std::to_string(fresh[k].entropy) + " requests to the entropy source");
 			}
 			if(hcount == 3) mc::sample("history " + hs + " then each of 12 observed calls x seeds in its own grandchild: value bits and the hash of the complete argument stream equal those of a fresh process", 3);
@@ -289,14 +302,20 @@ static void containment_and_accuracy(unsigned long long& unit)
 								else mc::maxi(std::string("deviation_in_standard_errors_") + m, (double)(fabsl(sh->value - exact) / se), key);
 							}
 						}
-	// front ends: Integrate_2D / 3D with the Monte-Carlo method names on disjoint per-axis ranges
+	// front ends: Integrate_2D / 3D with the Monte-Carlo method names on disjoint per-axis ranges, the three widths in every order
 	for(const char* m : {"Monte-Carlo", "Vegas", "Miser"})
 		for(int d3 = 0; d3 < 2; d3++)
+			for(int perm = 0; perm < (d3 ? 6 : 2); perm++)
 			for(unsigned seed : seeds)
 			for(int budget : {20000, 0})	// 0: the budget argument left at its default (30000 calls)
 			{
 				if(!mc::mine(unit++)) continue;
-				std::string key = std::string("frontend,") + m + (d3 ? ",3D" : ",2D") + ",seed=" + std::to_string(seed) + (budget ? "" : ",default_budget");
+				if(perm > 0 && (budget == 0 || seed != seeds[0])) continue;	// the other orderings: one seed, explicit budget
+				static const int PERM[6][3] = {{0, 1, 2}, {1, 2, 0}, {2, 0, 1}, {0, 2, 1}, {2, 1, 0}, {1, 0, 2}};
+				const double W[3] = {1.0, 1.5, 2.25}, LO[3] = {0.0, 2.0, 5.0};
+				double w[3], lo[3], hi[3];
+				for(int a = 0; a < 3; a++) { w[a] = d3 ? W[PERM[perm][a]] : W[(a + perm) % 2]; lo[a] = LO[a]; hi[a] = lo[a] + w[a]; }
+				std::string key = std::string("frontend,") + m + (d3 ? ",3D" : ",2D") + ",widths=" + mc::dec(w[0]) + "/" + mc::dec(w[1]) + (d3 ? "/" + mc::dec(w[2]) : "") + ",seed=" + std::to_string(seed) + (budget ? "" : ",default_budget");
 				sh->died = 1;
 				std::string ms = m;
 				bool ok = in_child([&](Digest*) {
@@ -304,21 +323,56 @@ static void containment_and_accuracy(unsigned long long& unit)
 					g_seed = seed;
 					g_entropy_requests = 0;
 					double v;
-					auto f3 = [&](double x, double y, double z) { evals++; if(!(x >= 0 && x <= 1 && y >= 2 && y <= 3.5 && z >= 5 && z <= 7.25)) outside++; return std::exp(-x) * (1 / (y + 1)) * (2 + std::cos(0.3 * z)); };
-					auto f2 = [&](double x, double y) { evals++; if(!(x >= 0 && x <= 1 && y >= 2 && y <= 3.5)) outside++; return std::exp(-x) * (1 / (y + 1)); };
-					if(d3) v = budget ? Integrate_3D(f3, 0, 1, 2, 3.5, 5, 7.25, ms, budget) : Integrate_3D(f3, 0, 1, 2, 3.5, 5, 7.25, ms);
-					else v = budget ? Integrate_2D(f2, 0, 1, 2, 3.5, ms, budget) : Integrate_2D(f2, 0, 1, 2, 3.5, ms);
+					auto f3 = [&](double x, double y, double z) { evals++; if(!(x >= lo[0] && x <= hi[0] && y >= lo[1] && y <= hi[1] && z >= lo[2] && z <= hi[2])) outside++; return std::exp(-(x - lo[0]) / w[0]) * (1 / ((y - lo[1]) / w[1] + 1)) * (2 + std::cos((z - lo[2]) / w[2])); };
+					auto f2 = [&](double x, double y) { evals++; if(!(x >= lo[0] && x <= hi[0] && y >= lo[1] && y <= hi[1])) outside++; return std::exp(-(x - lo[0]) / w[0]) * (1 / ((y - lo[1]) / w[1] + 1)); };
+					if(d3) v = budget ? Integrate_3D(f3, lo[0], hi[0], lo[1], hi[1], lo[2], hi[2], ms, budget) : Integrate_3D(f3, lo[0], hi[0], lo[1], hi[1], lo[2], hi[2], ms);
+					else v = budget ? Integrate_2D(f2, lo[0], hi[0], lo[1], hi[1], ms, budget) : Integrate_2D(f2, lo[0], hi[0], lo[1], hi[1], ms);
 					*sh = Res{v, evals, outside, 0, 0};
 				}, nullptr, 300);
 				mc::count("evaluations", 1);
 				mc::count("transitions", 1);
 				if(!ok || sh->died) { fail("frontend", key, "terminated_process", "ended the process"); continue; }
 				if(sh->outside) fail("frontend", key, "argument_outside_its_own_axis_range", std::to_string(sh->outside) + " evaluations with a coordinate outside the range of its own pair of limits");
-				ld Ix = 1 - expl(-1.0L), Iy = logl(4.5L / 3), Iz = (sinl(0.3L * 7.25L) - sinl(0.3L * 5.0L)) / 0.3L + 2 * 2.25L;
+				ld Ix = w[0] * (1 - expl(-1.0L)), Iy = w[1] * logl(2.0L), Iz = w[2] * (sinl(1.0L) + 2);
 				ld ex = d3 ? Ix * Iy * Iz : Ix * Iy;
 				// crude but safe variance bound: the integrand is within [0, max] so sigma <= max*Volume/2
-				ld vol = d3 ? 1.5L * 2.25L : 1.5L, fmax = d3 ? (1.0L / 3) * 3 : 1.0L / 3;
+				ld vol = d3 ? w[0] * w[1] * w[2] : w[0] * w[1], fmax = d3 ? 3 : 1;
 				ld se = fmax * vol / 2 / sqrtl(20000.0L);
+				if(!(fabsl(sh->value - ex) <= 6 * se)) fail("frontend", key, "estimate_outside_six_standard_errors", "estimate " + mc::dec(sh->value) + " exact " + mc::dec((double)ex));
+			}
+	// front ends called from inside an integrand of a front end (an integral over an integral): both levels stay inside their own
+	// rectangles; the inner integrand is a constant (integrated exactly), so the outer value is known
+	for(const char* mo : {"Monte-Carlo", "Vegas", "Miser"})
+		for(const char* mi : {"Monte-Carlo", "Vegas", "Miser"})
+			for(int d3 = 0; d3 < 2; d3++)
+			{
+				if(!mc::mine(unit++)) continue;
+				std::string key = std::string("nested_frontend,outer=") + mo + ",inner=" + mi + (d3 ? ",outer_3D_inner_2D" : ",outer_2D_inner_3D");
+				sh->died = 1;
+				auto t_start = std::chrono::steady_clock::now();
+				std::string so = mo, si = mi;
+				bool ok = in_child([&](Digest*) {
+					long long evals = 0, outside = 0, inner_bad = 0;
+					g_seed = 5;
+					double v;
+					auto i2 = [&](double x, double y) { if(!(x >= 10 && x <= 11 && y >= 20 && y <= 20.5)) outside++; return 4.0; };
+					auto i3 = [&](double x, double y, double z) { if(!(x >= 10 && x <= 11 && y >= 20 && y <= 20.5 && z >= -3 && z <= -1)) outside++; return 2.0; };
+					auto inner = [&]() { double k = d3 ? Integrate_2D(i2, 10, 11, 20, 20.5, si, 300) : Integrate_3D(i3, 10, 11, 20, 20.5, -3, -1, si, 300); if(!(std::fabs(k - 2.0) <= 1e-9)) inner_bad++; return k; };
+					auto o2 = [&](double x, double y) { evals++; if(!(x >= 0 && x <= 1 && y >= 2 && y <= 3.5)) outside++; return std::exp(-x) * (1 / (y - 1)) * inner(); };
+					auto o3 = [&](double x, double y, double z) { evals++; if(!(x >= 0 && x <= 1 && y >= 2 && y <= 3.5 && z >= 5 && z <= 7)) outside++; return std::exp(-x) * (1 / (y - 1)) * (1 + 0.1 * z) * inner(); };
+					v = d3 ? Integrate_3D(o3, 0, 1, 2, 3.5, 5, 7, so, 3000) : Integrate_2D(o2, 0, 1, 2, 3.5, so, 3000);
+					*sh = Res{v, evals, outside, inner_bad, 0};
+				}, nullptr, 15);
+				double elapsed = std::chrono::duration<double>(std::chrono::steady_clock::now() - t_start).count();
+				mc::count("evaluations", 1);
+				mc::count("transitions", 1);
+				if(!ok && elapsed >= 15) { fail("frontend", key, "does_not_return", "the nested integration did not return within 15 s (an un-nested call of this size takes milliseconds)"); continue; }
+				if(!ok || sh->died) { fail("frontend", key, "terminated_process", "ended the process"); continue; }
+				if(sh->outside) fail("frontend", key, "argument_outside_its_own_axis_range", std::to_string(sh->outside) + " evaluations (outer or inner) with a coordinate outside the range of its own pair of limits");
+				if(sh->wrong_size) fail("frontend", key, "inner_constant_not_exact", std::to_string(sh->wrong_size) + " inner integrals of a constant differ from volume times constant");
+				ld ex = (1 - expl(-1.0L)) * logl(2.5L) * 2 * (d3 ? (2 + 0.1L * 12) : 1);
+				ld vol = d3 ? 3.0L : 1.5L, fmax = d3 ? 2 * 1.7L : 2;
+				ld se = fmax * vol / 2 / sqrtl(3000.0L);
 				if(!(fabsl(sh->value - ex) <= 6 * se)) fail("frontend", key, "estimate_outside_six_standard_errors", "estimate " + mc::dec(sh->value) + " exact " + mc::dec((double)ex));
 			}
 	munmap(sh, sizeof(Res));
